@@ -5,6 +5,7 @@ package simhook
 import (
 	"io"
 	"sync"
+	"sync/atomic"
 )
 
 // Enabled reports whether the simulation hooks are compiled in.
@@ -41,61 +42,83 @@ type Handler interface {
 	WrapReadCloser(r io.ReadCloser) io.ReadCloser
 }
 
-// H is nil unless a simulation is active; nil means every hook is inert.
-var H Handler
+// The handler is nil unless a simulation is active; nil means every hook is
+// inert. It is read by every goroutine of the library, up to its very last
+// hook call, and written by the simulator between two simulations: atomically,
+// so that the hooks themselves are not a data race.
+var current atomic.Pointer[Handler]
 
-func Active() bool { return H != nil }
+// SetHandler installs the simulator (nil: none).
+func SetHandler(h Handler) {
+	if h == nil {
+		current.Store(nil)
+		return
+	}
+
+	current.Store(&h)
+}
+
+// Current returns the active handler or nil.
+func Current() Handler {
+	if p := current.Load(); p != nil {
+		return *p
+	}
+
+	return nil
+}
+
+func Active() bool { return Current() != nil }
 
 func Spawn(key any) {
-	if h := H; h != nil {
+	if h := Current(); h != nil {
 		h.Spawn(key)
 	}
 }
 
 func Start(key any) {
-	if h := H; h != nil {
+	if h := Current(); h != nil {
 		h.Start(key)
 	}
 }
 
 func Exit(key any) {
-	if h := H; h != nil {
+	if h := Current(); h != nil {
 		h.Exit(key)
 	}
 }
 
 func Join() {
-	if h := H; h != nil {
+	if h := Current(); h != nil {
 		h.Join()
 	}
 }
 
 func Point(name string, arg int) {
-	if h := H; h != nil {
+	if h := Current(); h != nil {
 		h.Point(name, arg)
 	}
 }
 
 func Spin(name string, seen, want int32) {
-	if h := H; h != nil {
+	if h := Current(); h != nil {
 		h.Spin(name, seen, want)
 	}
 }
 
 func Corrupt(site string, buf []byte) {
-	if h := H; h != nil {
+	if h := Current(); h != nil {
 		h.Corrupt(site, buf)
 	}
 }
 
 func Recovered(r any) {
-	if h := H; h != nil {
+	if h := Current(); h != nil {
 		h.Recovered(r)
 	}
 }
 
 func WrapWriteCloser(w io.WriteCloser) io.WriteCloser {
-	if h := H; h != nil {
+	if h := Current(); h != nil {
 		return h.WrapWriteCloser(w)
 	}
 
@@ -103,7 +126,7 @@ func WrapWriteCloser(w io.WriteCloser) io.WriteCloser {
 }
 
 func WrapReadCloser(r io.ReadCloser) io.ReadCloser {
-	if h := H; h != nil {
+	if h := Current(); h != nil {
 		return h.WrapReadCloser(r)
 	}
 
@@ -122,7 +145,7 @@ type WaitGroup struct {
 func (w *WaitGroup) Add(n int) {
 	w.wg.Add(n)
 
-	if h := H; h != nil {
+	if h := Current(); h != nil {
 		h.WGAdd(w, n)
 	}
 }
@@ -130,13 +153,13 @@ func (w *WaitGroup) Add(n int) {
 func (w *WaitGroup) Done() {
 	w.wg.Done()
 
-	if h := H; h != nil {
+	if h := Current(); h != nil {
 		h.WGDone(w)
 	}
 }
 
 func (w *WaitGroup) Wait() {
-	if h := H; h != nil {
+	if h := Current(); h != nil {
 		h.WGWait(w)
 	}
 
